@@ -1,16 +1,23 @@
 (* Proofs/ValueDeAgreeMap.v — C16, second clause, extended to maps: from_value agrees with the text deserializer on the text the
    serializer prints for the Value, for the type programs of [agree_ty_map] = [agree_ty] (Proofs/ValueDeAgree.v) + `TMap k t` with every
    key type except f32 (String, char, bool, the ten integer widths, f64, Option / newtype wrappers of keys, unit-variant enums).
+   This file also holds the infrastructure shared with the later stages (Proofs/ValueDeAgreeStruct.v, ValueDeAgreeEnum.v,
+   ValueDeAgreeMisc.v).
 
    Differences to Proofs/ValueDeAgree.v, which this file re-uses for all leaf types:
    * [shape2] enters objects: the members of the tree correspond one by one, in order, to the entries of the Value's Map, and every
      key is spelled as the serializer spells it ([pieces_of key]).  Both are needed: a typed map keeps the entries in arrival order
      with duplicates, and a numeric / bool key is only accepted unescaped (see Proofs/ValueDeAgreeKey.v).  A Value's Map has distinct
-     keys ([wf_value]), so the tree of the printed text has this shape ([value_shape2]).
+     keys ([wf_value]), so the tree of the printed text has this shape ([value_shape2]).  At number leaves [shape2] carries a
+     relation [NR] between the literal and the Number (instantiated with "the literal the serializer prints"; only the 128-bit
+     integer targets look at it, Proofs/ValueDeAgreeMisc.v).
    * [claimb] walks a (type program, Value) pair the way the seed does and excludes the two shapes on which from_value and from_str
-     genuinely disagree (both concern enums, stage 3): a struct variant written as an array, and a zero-length tuple variant on `[]`.
+     genuinely disagree (both concern enums): a struct variant written as an array, and a zero-length tuple variant on `[]`.
      It is identically true for type programs without enums ([claimb_noenum]); it is threaded through the typed lemmas here so that the
      wrapper lemmas (Option, newtype, Vec, tuples, maps) need not be proved again for the later stages.
+   * [okrel2]: when the Value route fails, the text route either does not succeed or succeeds "stuck": it stops in front of one of
+     `.`, `e`, `E` (a 128-bit integer target in front of the fraction / exponent of a float literal: do_deserialize_i128 scans the
+     integer part only).  Every continuation (`,` / `]` / `}` / end of input expected) fails there.
    The statements are completeness-with-failure statements as in ValueDeAgree.v: [agree_at2]. *)
 From SJ Require Import Base.Bytes Base.Utf8 Base.FloatB Gen.Tables
   Model.Read Model.Str Model.Num Model.NumF32 Model.Value Model.De Model.Ignore Model.Ty Model.NumberM Model.DeTyped Model.ValueDe
@@ -21,45 +28,51 @@ Require Import Lia ZifyBool ZifyNat ZifyN.
 Open Scope N_scope.
 
 (* ---- the tree mirrors the Value, objects included, keys spelled canonically ------------------------------------------------------------ *)
-Fixpoint shape2 (c : cst) (v : value) {struct c} : Prop :=
-  match c, v with
-  | CArr _ es, VArr l => shape2_elems es l
-  | CObj _ ms, VObj m => shape2_members ms m
-  | CArr _ _, _ => False
-  | CObj _ _, _ => False
-  | _, _ => shape c v = true
-  end
-with shape2_elems (es : elems) (l : list value) {struct es} : Prop :=
-  match es, l with
-  | ENil, [] => True
-  | ECons _ c _ r, x :: l' => shape2 c x /\ shape2_elems r l'
-  | _, _ => False
-  end
-with shape2_members (ms : members) (m : list (bytes * value)) {struct ms} : Prop :=
-  match ms, m with
-  | MNil, [] => True
-  | MCons _ k _ _ c _ r, kv :: m' => k = pieces_of (fst kv) /\ shape2 c (snd kv) /\ shape2_members r m'
-  | _, _ => False
-  end.
+Section Shape2.
+  Variable NR : numlit -> num -> Prop.
 
-Lemma shape2_shape_all :
-  (forall c v, shape2 c v -> shape c v = true) /\ (forall es l, shape2_elems es l -> shape_elems es l = true) /\ (forall ms : members, True).
-Proof.
-  apply cst_elems_members_ind; try (intros; exact I).
-  - intros v H. destruct v; exact H.
-  - intros v H. destruct v; exact H.
-  - intros v H. destruct v; exact H.
-  - intros n v H. destruct v; exact H.
-  - intros s v H. destruct v; exact H.
-  - intros w es IH v H. destruct v; cbn [shape2] in H; try contradiction. cbn [shape]. apply IH, H.
-  - intros w ms _ v H. destruct v; cbn [shape2] in H; try contradiction. reflexivity.
-  - intros l H. destruct l; [reflexivity|contradiction].
-  - intros w1 c IHc w2 rest IHr l H. destruct l as [|x l]; [contradiction|]. cbn [shape2_elems] in H. destruct H as [H1 H2].
-    cbn [shape_elems]. rewrite (IHc x H1), (IHr l H2). reflexivity.
-Qed.
+  Fixpoint shape2 (c : cst) (v : value) {struct c} : Prop :=
+    match c, v with
+    | CNum n, VNum num => NR n num
+    | CArr _ es, VArr l => shape2_elems es l
+    | CObj _ ms, VObj m => shape2_members ms m
+    | CNum _, _ => False
+    | CArr _ _, _ => False
+    | CObj _ _, _ => False
+    | _, _ => shape c v = true
+    end
+  with shape2_elems (es : elems) (l : list value) {struct es} : Prop :=
+    match es, l with
+    | ENil, [] => True
+    | ECons _ c _ r, x :: l' => shape2 c x /\ shape2_elems r l'
+    | _, _ => False
+    end
+  with shape2_members (ms : members) (m : list (bytes * value)) {struct ms} : Prop :=
+    match ms, m with
+    | MNil, [] => True
+    | MCons _ k _ _ c _ r, kv :: m' => k = pieces_of (fst kv) /\ shape2 c (snd kv) /\ shape2_members r m'
+    | _, _ => False
+    end.
 
-Lemma shape2_shape c v : shape2 c v -> shape c v = true.
-Proof. apply shape2_shape_all. Qed.
+  Lemma shape2_shape_all :
+    (forall c v, shape2 c v -> shape c v = true) /\ (forall es l, shape2_elems es l -> shape_elems es l = true) /\ (forall ms : members, True).
+  Proof.
+    apply cst_elems_members_ind; try (intros; exact I).
+    - intros v H. destruct v; exact H.
+    - intros v H. destruct v; exact H.
+    - intros v H. destruct v; exact H.
+    - intros n v H. destruct v; cbn [shape2] in H; try contradiction. reflexivity.
+    - intros s v H. destruct v; exact H.
+    - intros w es IH v H. destruct v; cbn [shape2] in H; try contradiction. cbn [shape]. apply IH, H.
+    - intros w ms _ v H. destruct v; cbn [shape2] in H; try contradiction. reflexivity.
+    - intros l H. destruct l; [reflexivity|contradiction].
+    - intros w1 c IHc w2 rest IHr l H. destruct l as [|x l]; [contradiction|]. cbn [shape2_elems] in H. destruct H as [H1 H2].
+      cbn [shape_elems]. rewrite (IHc x H1), (IHr l H2). reflexivity.
+  Qed.
+
+  Lemma shape2_shape c v : shape2 c v -> shape c v = true.
+  Proof. apply shape2_shape_all. Qed.
+End Shape2.
 
 (* ---- the (type program, Value) pairs of the claim ---------------------------------------------------------------------------------------- *)
 Fixpoint claim_list (f : ty -> value -> bool) (ts : list ty) (l : list value) : bool :=
@@ -72,6 +85,25 @@ Definition is_nil {A} (l : list A) : bool := match l with [] => true | _ => fals
 
 Definition claim_fields (f : ty -> value -> bool) (fields : list (bytes * ty)) (m : list (bytes * value)) : bool :=
   forallb (fun kv => match index_of (fst kv) fields with Some (_, t') => f t' (snd kv) | None => true end) m.
+
+(* the payload of a variant *)
+Definition claim_variant (f : ty -> value -> bool) (vr : variant) (x : value) : bool :=
+  match vr with
+  | VUnit => true
+  | VNewtype t1 => f t1 x
+  | VTuple ts =>
+    match x with
+    | VArr l => negb (is_nil ts && is_nil l)         (* a zero-length tuple variant on `[]`: excluded *)
+                && claim_list f ts l
+    | _ => true
+    end
+  | VStruct fields =>
+    match x with
+    | VArr _ => false                                 (* a struct variant written as an array: excluded *)
+    | VObj m => claim_fields f fields m
+    | _ => true
+    end
+  end.
 
 (* follows the seed over the Value with the fuel discipline of [de_value_owned] *)
 Fixpoint claimb (fuel : nat) (t : ty) (v : value) {struct fuel} : bool :=
@@ -92,22 +124,10 @@ Fixpoint claimb (fuel : nat) (t : ty) (v : value) {struct fuel} : bool :=
       end
     | TEnum vs =>
       match v with
-      | VObj [(name, x)] =>
+      | VObj ((name, x) :: _) =>                       (* more than one entry: both routes fail, after looking at the first *)
         match index_of name vs with
-        | Some (_, VNewtype t1) => claimb f t1 x
-        | Some (_, VTuple ts) =>
-          match x with
-          | VArr l => negb (is_nil ts && is_nil l)         (* a zero-length tuple variant on `[]`: excluded *)
-                      && claim_list (claimb f) ts l
-          | _ => true
-          end
-        | Some (_, VStruct fields) =>
-          match x with
-          | VArr _ => false                                 (* a struct variant written as an array: excluded *)
-          | VObj m => claim_fields (claimb f) fields m
-          | _ => true
-          end
-        | _ => true
+        | Some (_, vr) => claim_variant (claimb f) vr x
+        | None => true
         end
       | _ => true
       end
@@ -115,41 +135,296 @@ Fixpoint claimb (fuel : nat) (t : ty) (v : value) {struct fuel} : bool :=
     end
   end.
 
+(* ---- outcomes ------------------------------------------------------------------------------------------------------------------------------ *)
+Definition not_ok {A} (tr : tres A) : Prop := forall a, tr <> TOk a.
+
+(* the text route stopped in front of a fraction or an exponent *)
+Definition stuck (l : bytes) : Prop := exists b r, l = b :: r /\ (b = 46 \/ b = 69 \/ b = 101).
+
+Definition okrel2 {A} (ub : A -> A) (r : vres A) (tr : tres (A * st)) (s : st) (rst : bytes) : Prop :=
+  match r with
+  | VOk d => exists d' s', tr = TOk (d', s') /\ ub d' = ub d /\ rest s' = rst /\ depth s' = depth s
+  | VErr _ _ _ => forall d' s', tr = TOk (d', s') -> stuck (rest s')
+  | _ => False
+  end.
+
+Lemma okrel_2 {A} (ub : A -> A) r tr s rst : okrel ub r tr s rst -> okrel2 ub r tr s rst.
+Proof. unfold okrel, okrel2. destruct r; try tauto. intros H d' s' Ht. exfalso. exact (H _ Ht). Qed.
+
+Lemma okrel2_not_ok {A} (ub : A -> A) c l k tr s rst : not_ok tr -> okrel2 ub (VErr c l k) tr s rst.
+Proof. intros H d' s' Ht. exfalso. exact (H _ Ht). Qed.
+
+Lemma okrel2_map (C : dval -> dval) r tr s rst : (forall a b, unborrow a = unborrow b -> unborrow (C a) = unborrow (C b)) ->
+  okrel2 unborrow r tr s rst -> okrel2 unborrow (vmap C r) (tmap C tr) s rst.
+Proof.
+  intros HC. unfold okrel2. destruct r as [d| | |]; cbn [vmap vbind]; try tauto.
+  - intros (d' & s' & -> & Hu & Hr & Hd). exists (C d'), s'. split; [reflexivity|]. auto.
+  - intros H d' s' Ht. unfold tmap in Ht. destruct tr as [[a s0]| | | |]; cbn [tbind] in Ht; try discriminate Ht.
+    injection Ht as _ <-. exact (H a s0 eq_refl).
+Qed.
+
+Lemma okrel2_depth {A} (ub : A -> A) r tr s1 s rst : depth s1 = depth s -> okrel2 ub r tr s1 rst -> okrel2 ub r tr s rst.
+Proof.
+  intros Hd. unfold okrel2. destruct r; try tauto. intros (d' & s' & H1 & H2 & H3 & H4). exists d', s'. rewrite <- Hd. auto.
+Qed.
+
+Lemma tbind_lift_not_ok {A B} (r : res A) (k : A -> tres B) : (forall o, r <> Ok o) -> not_ok (tbind (lift r) k).
+Proof. intros H a. destruct r as [o| | |]; cbn [lift tbind]; try discriminate. exfalso. exact (H o eq_refl). Qed.
+
+Lemma tmap_not_ok' {A B} (f : A -> B) (r : tres (A * st)) : not_ok r -> not_ok (tmap f r).
+Proof. intros H b. apply tmap_not_ok. exact H. Qed.
+
+Lemma sfuel_pos' es : (1 <= sfuel es)%nat.
+Proof. destruct es; cbn [sfuel]; lia. Qed.
+Lemma mfuel_pos ms : (1 <= mfuel ms)%nat.
+Proof. destruct ms; cbn [mfuel]; lia. Qed.
+Lemma ty_depth_pos' t : (1 <= ty_depth t)%nat.
+Proof. destruct t; cbn [ty_depth]; lia. Qed.
+Lemma lmax_depth_in' ts t : In t ts -> (ty_depth t <= lmax_depth ts)%nat.
+Proof.
+  induction ts as [|x ts IH]; [intros []|]. cbn [lmax_depth fold_right]. intros [->|Hin]; [lia|]. specialize (IH Hin). unfold lmax_depth in IH. lia.
+Qed.
+
+(* ---- first bytes ---------------------------------------------------------------------------------------------------------------- *)
+Lemma first_not c b r : wfb c = true -> render c = b :: r -> ws_byte b = false /\
+  ((forall w es, c <> CArr w es) -> b <> 91) /\ ((forall w ms, c <> CObj w ms) -> b <> 123) /\ ((forall ps, c <> CStr ps) -> b <> 34)
+  /\ (c <> CNull -> b <> 110).
+Proof.
+  intros Hwf Hren. destruct (render_first c Hwf) as (b' & r' & Hren' & Hws & Hkind). rewrite Hren in Hren'. injection Hren' as <- <-.
+  split; [exact Hws|].
+  destruct c as [| | |n|ps|w0 es|w0 ms].
+  - destruct Hkind as [-> _]. repeat split; intros; try discriminate; congruence.
+  - destruct Hkind as [-> _]. repeat split; intros; try discriminate; congruence.
+  - destruct Hkind as [-> _]. repeat split; intros; try discriminate; congruence.
+  - repeat split; intros _; destruct Hkind as [->|Hd]; try discriminate; unfold is_digit in Hd; lia.
+  - destruct Hkind as [-> _]. repeat split; intros Hc; try discriminate. exfalso. exact (Hc ps eq_refl).
+  - destruct Hkind as [-> _]. repeat split; intros Hc; try discriminate. exfalso. exact (Hc w0 es eq_refl).
+  - subst b. repeat split; intros Hc; try discriminate. exfalso. exact (Hc w0 ms eq_refl).
+Qed.
+
+(* ---- the reader around containers (no hypothesis on the configuration) ---------------------------------------------------------------- *)
+Section Frames.
+  Variable cf : cfg.
+  Local Notation E := (mkEnv RSlice TEof cf).
+
+  Lemma stuck_skipws l : stuck l -> exists b r, skipws l = b :: r /\ b <> 93 /\ b <> 44 /\ b <> 125 /\ b <> 58 /\ b <> 34.
+  Proof.
+    intros (b & r & -> & Hb). exists b, r. split; [apply skipws_head; destruct Hb as [->|[->| ->]]; reflexivity|].
+    destruct Hb as [->|[->| ->]]; repeat split; discriminate.
+  Qed.
+
+  Lemma hne_stuck s : stuck (rest s) -> forall o, has_next_element E false s <> Ok o.
+  Proof.
+    intros Hs o H. apply hne_inv in H. destruct (stuck_skipws _ Hs) as (b & r & Hsk & H93 & H44 & _). destruct o as [s1|].
+    - destruct H as (_ & _ & (r0 & Hr0 & _)). rewrite Hsk in Hr0. congruence.
+    - destruct H as (r0 & Hr0). rewrite Hsk in Hr0. congruence.
+  Qed.
+
+  Lemma hnk_stuck s : stuck (rest s) -> forall o, has_next_key E false s <> Ok o.
+  Proof.
+    intros Hs o H. apply hnk_inv in H. destruct (stuck_skipws _ Hs) as (b & r & Hsk & H93 & H44 & H125 & _). destruct o as [s1|].
+    - destruct H as (_ & r1 & _ & (r0 & Hr0 & _)). rewrite Hsk in Hr0. congruence.
+    - destruct H as (r0 & Hr0). rewrite Hsk in Hr0. congruence.
+  Qed.
+
+  Lemma end_seq_stuck s : stuck (rest s) -> forall s', end_seq E s <> Ok s'.
+  Proof. intros Hs s' H. apply end_seq_inv in H as [H _]. destruct (stuck_skipws _ Hs) as (b & r & Hsk & H93 & _). rewrite Hsk in H. congruence. Qed.
+
+  Lemma de_end_stuck s : stuck (rest s) -> forall s', de_end E s <> Ok s'.
+  Proof.
+    intros Hs s' H. assert (Hw : ws_ok (rest s) = true) by (apply (de_end_ok cf); eauto).
+    destruct Hs as (b & r & Hr & Hb). rewrite Hr in Hw. cbn [ws_ok forallb] in Hw. destruct Hb as [->|[->| ->]]; discriminate Hw.
+  Qed.
+
+  Lemma de_elems_S' f t1 first s :
+    de_elems (S f) E t1 first s =
+    (let^ o := has_next_element E first s in
+     match o with
+     | None => TOk ([], s)
+     | Some s1 => let+ (d, s2) := de_typed f E t1 s1 in let+ (ds, s3) := de_elems f E t1 false s2 in TOk (d :: ds, s3)
+     end).
+  Proof. reflexivity. Qed.
+
+  Lemma de_tuple_S' f ts first s :
+    de_tuple (S f) E ts first s =
+    match ts with
+    | [] => TOk ([], s)
+    | t :: ts' =>
+      let^ o := has_next_element E first s in
+      match o with
+      | None => TUnpos MInvalidLength s
+      | Some s1 => let+ (d, s2) := de_typed f E t s1 in let+ (ds, s3) := de_tuple f E ts' false s2 in TOk (d :: ds, s3)
+      end
+    end.
+  Proof. reflexivity. Qed.
+
+  Lemma de_entries_S f k v first s :
+    de_entries (S f) E k v first s =
+    (let^ o := has_next_key E first s in
+     match o with
+     | None => TOk ([], s)
+     | Some s1 =>
+       let+ (kd, s2) := de_key f E k s1 in
+       let^ s3 := parse_object_colon E s2 in
+       let+ (vd, s4) := de_typed f E v s3 in
+       let+ (es, s5) := de_entries f E k v false s4 in
+       TOk ((kd, vd) :: es, s5)
+     end).
+  Proof. reflexivity. Qed.
+
+  Lemma de_elems_stuck f t1 s : stuck (rest s) -> not_ok (de_elems f E t1 false s).
+  Proof. intros Hs. destruct f as [|f]; [discriminate|]. rewrite de_elems_S'. apply tbind_lift_not_ok, hne_stuck, Hs. Qed.
+
+  Lemma de_entries_stuck f k v s : stuck (rest s) -> not_ok (de_entries f E k v false s).
+  Proof. intros Hs. destruct f as [|f]; [discriminate|]. rewrite de_entries_S. apply tbind_lift_not_ok, hnk_stuck, Hs. Qed.
+
+  (* a fixed-length visitor behind a stuck element: it fails, or (no component left) returns in the same place *)
+  Lemma de_tuple_stuck f ts s : stuck (rest s) -> forall a s', de_tuple f E ts false s = TOk (a, s') -> stuck (rest s').
+  Proof.
+    intros Hs a s' H. destruct f as [|f]; [discriminate H|]. rewrite de_tuple_S' in H. destruct ts as [|t ts'].
+    - injection H as _ <-. exact Hs.
+    - exfalso. exact (tbind_lift_not_ok _ _ (hne_stuck s Hs) _ H).
+  Qed.
+
+  (* ---- `[` / `{` ... `]` / `}` ------------------------------------------------------------------------------------------------------ *)
+  Lemma open_frame b r n s w : ws_ok w = true -> ws_byte b = false -> rest s = w ++ b :: r -> dbudget cf (S n) (depth s) ->
+    exists s1 s2, parse_whitespace E s = Ok (Some b, s1) /\ enter E s1 = Ok s2 /\ rest (discard s2) = r
+      /\ depth s1 = depth s /\ depth (discard s2) = (if limit_disabled cf then depth s else depth s - 1)
+      /\ dbudget cf n (depth (discard s2)).
+  Proof.
+    intros Hw Hb Hr Hdb. destruct (pws_head cf s w b r Hw Hb Hr) as (s1 & Hpw & Hr1 & Hd1).
+    destruct (enter_fwd cf s1) as (s2 & Hen & Hr2 & Hd2).
+    { intros Hl. specialize (Hdb Hl). lia. }
+    exists s1, s2. split; [exact Hpw|]. split; [exact Hen|]. split; [rewrite discard_rest, Hr2, Hr1; reflexivity|]. split; [exact Hd1|].
+    split; [rewrite discard_depth, Hd2, Hd1; reflexivity|].
+    rewrite discard_depth, Hd2, Hd1. unfold dbudget in *. intros Hl. specialize (Hdb Hl). rewrite Hl. lia.
+  Qed.
+
+  Definition closes (endf : env -> st -> res st) (cb : N) : Prop :=
+    forall s4 rst', skipws (rest s4) = cb :: rst' -> exists s5, endf E s4 = Ok s5 /\ rest s5 = rst' /\ depth s5 = depth s4.
+
+  Lemma closes_seq : closes end_seq 93.
+  Proof. intros s4 rst' H. exact (end_seq_fwd cf s4 rst' H). Qed.
+  Lemma closes_map : closes end_map 125.
+  Proof. intros s4 rst' H. exact (end_map_fwd cf s4 rst' H). Qed.
+
+  Lemma close_frame {A} endf endst cb (body : st -> tres (A * st)) n s s1 s2 x s3 wl rst :
+    closes endf cb -> ws_byte cb = false ->
+    dbudget cf (S n) (depth s) -> enter E s1 = Ok s2 -> depth s1 = depth s ->
+    depth (discard s2) = (if limit_disabled cf then depth s else depth s - 1) ->
+    body (discard s2) = TOk (x, s3) -> ws_ok wl = true -> rest s3 = wl ++ cb :: rst -> depth s3 = depth (discard s2) ->
+    exists s5, frame E endf endst body s1 = TOk (x, s5) /\ rest s5 = rst /\ depth s5 = depth s.
+  Proof.
+    intros Hcl Hcb Hdb Hen Hd1 Hd2 He Hwl Hr3 Hd3. unfold frame. rewrite Hen. cbn [lift tbind]. rewrite He.
+    destruct (leave_fwd cf s3) as (s4 & Hlv & Hr4 & Hd4).
+    { intros Hl. specialize (Hdb Hl). rewrite Hd3, Hd2, Hl. lia. }
+    rewrite Hlv. cbn [lift tbind].
+    destruct (Hcl s4 rst) as (s5 & Hes & Hr5 & Hd5).
+    { rewrite Hr4, Hr3. now apply skipws_to. }
+    rewrite Hes. cbn [lift tbind]. exists s5. split; [reflexivity|]. split; [exact Hr5|].
+    rewrite Hd5, Hd4, Hd3, Hd2. unfold dbudget in Hdb. destruct (limit_disabled cf); [reflexivity|].
+    specialize (Hdb eq_refl). lia.
+  Qed.
+
+  Lemma frame_fail {A} endf endst (body : st -> tres (A * st)) s1 s2 : enter E s1 = Ok s2 ->
+    not_ok (body (discard s2)) -> not_ok (frame E endf endst body s1).
+  Proof.
+    intros Hen H a. unfold frame. rewrite Hen. cbn [lift tbind].
+    destruct (body (discard s2)) as [[x s3]| | | |] eqn:Hb; try discriminate.
+    - exfalso. exact (H _ eq_refl).
+    - destruct (leave E s); cbn [lift tbind]; discriminate.
+  Qed.
+
+  (* the frame fails when the closing bracket does not come next *)
+  Lemma frame_blocked' {A} endf endst (body : st -> tres (A * st)) s1 s2 x s3 : enter E s1 = Ok s2 -> body (discard s2) = TOk (x, s3) ->
+    (forall s4 s5, rest s4 = rest s3 -> endf E s4 <> Ok s5) -> not_ok (frame E endf endst body s1).
+  Proof.
+    intros Hen Hb H a. unfold frame. rewrite Hen. cbn [lift tbind]. rewrite Hb.
+    destruct (leave E s3) as [s4| | |] eqn:Hl; cbn [lift tbind]; try discriminate.
+    apply leave_inv in Hl as [Hr4 _].
+    destruct (endf E s4) as [s5| | |] eqn:He; cbn [lift tbind]; try discriminate.
+    exfalso. exact (H s4 s5 Hr4 He).
+  Qed.
+
+  Lemma hne_step' first s wp w1 c w2 rest0 rst : ws_ok wp = true -> ws_ok w1 = true -> wfb c = true ->
+    rest s = seq_text first wp (ECons w1 c w2 rest0) ++ 93 :: rst ->
+    exists s1, has_next_element E first s = Ok (Some s1) /\ rest s1 = render c ++ (w2 ++ tail_elems rest0 ++ 93 :: rst)
+               /\ depth s1 = depth s.
+  Proof.
+    intros Hwp Hw1 Hwfc Hr. rewrite seq_text_cons in Hr. destruct (render_head c Hwfc) as (b & r & Hrc & Hbws & Hb93 & _).
+    rewrite Hrc. cbn [app]. destruct first.
+    - apply hne_fwd_first; [|exact Hb93]. rewrite Hr, Hrc. cbn [app]. lnorm. now apply skipws_to.
+    - apply (hne_fwd_more cf s (w1 ++ b :: r ++ (w2 ++ tail_elems rest0 ++ 93 :: rst))); [| |exact Hb93].
+      + rewrite Hr, Hrc. lnorm. now apply skipws_to.
+      + now apply skipws_to.
+  Qed.
+
+  (* the next member: its key has been peeked *)
+  Lemma hnk_step first s wp w1 k w2 w3 c w4 rest0 rst : ws_ok wp = true -> ws_ok w1 = true ->
+    rest s = map_text first wp (MCons w1 k w2 w3 c w4 rest0) ++ 125 :: rst ->
+    exists s1, has_next_key E first s = Ok (Some s1)
+      /\ rest s1 = 34 :: flat_map render_piece k ++ 34 :: (w2 ++ 58 :: w3 ++ render c ++ (w4 ++ tail_members rest0 ++ 125 :: rst))
+      /\ depth s1 = depth s.
+  Proof.
+    intros Hwp Hw1 Hr. rewrite map_text_cons in Hr. unfold render_str in Hr. destruct first.
+    - apply hnk_fwd_first. rewrite Hr. lnorm. now apply skipws_to.
+    - apply (hnk_fwd_more cf s (w1 ++ 34 :: flat_map render_piece k ++ 34 :: (w2 ++ 58 :: w3 ++ render c ++ (w4 ++ tail_members rest0 ++ 125 :: rst)))).
+      + rewrite Hr. lnorm. now apply skipws_to.
+      + now apply skipws_to.
+  Qed.
+
+  Lemma colon_step s2 w2 r : ws_ok w2 = true -> rest s2 = w2 ++ 58 :: r ->
+    exists s3, parse_object_colon E s2 = Ok s3 /\ rest s3 = r /\ depth s3 = depth s2.
+  Proof. intros Hw2 Hr. apply colon_fwd. rewrite Hr. now apply skipws_to. Qed.
+
+  Lemma follow_members_tail w4 rest0 rst : ws_ok w4 = true -> follow_ok (w4 ++ tail_members rest0 ++ 125 :: rst).
+  Proof. intros Hw4. apply follow_ws; [exact Hw4|]. destruct rest0; cbn [tail_members app follow_ok]; auto. Qed.
+
+  Lemma follow_elems_tail w2 rest0 rst : ws_ok w2 = true -> follow_ok (w2 ++ tail_elems rest0 ++ 93 :: rst).
+  Proof. intros Hw2. apply follow_ws; [exact Hw2|]. destruct rest0; cbn [tail_elems app follow_ok]; auto. Qed.
+
+  (* the remaining text after some elements: the closing bracket does not come next *)
+  Lemma end_seq_blocked' first wl es rst s4 : ws_ok wl = true -> wfb_elems es = true -> es <> ENil ->
+    rest s4 = seq_text first wl es ++ 93 :: rst -> forall s5, end_seq E s4 <> Ok s5.
+  Proof. exact (end_seq_blocked cf first wl es rst s4). Qed.
+
+  (* a container request on a first byte it does not accept *)
+  Lemma reject_map {A} (body : st -> tres (A * st)) s w b r : ws_ok w = true -> ws_byte b = false -> rest s = w ++ b :: r -> b <> 123 ->
+    not_ok (deserialize_map E body s).
+  Proof.
+    intros Hw Hb Hr Hn a. destruct (pws_head cf s w b r Hw Hb Hr) as (s1 & Hpw & _). unfold deserialize_map. rewrite Hpw. cbn [lift tbind].
+    apply N.eqb_neq in Hn. rewrite Hn. apply fix_position_not_ok, pit_not_ok.
+  Qed.
+End Frames.
+
 Section Agree2.
+  Variable NR : numlit -> num -> Prop.
   Variable cf : cfg.
   Variable fx : fenv.
   Hypothesis Hap : arbitrary_precision cf = false.
   Local Notation E := (mkEnv RSlice TEof cf).
+  Local Notation shp2 := (shape2 NR).
+  Local Notation shp2_elems := (shape2_elems NR).
+  Local Notation shp2_members := (shape2_members NR).
 
-  Definition agree_at2 (t : ty) : Prop := forall c v fuel fv s w rst,
-    wfb c = true -> denote cf c = Some v -> shape2 c v -> claimb fv t v = true -> wf_value cf v = true -> ws_ok w = true -> follow_ok rst ->
+  (* [k]: slack of the Value route's fuel over the nesting of the type program.  from_value runs with one level to spare
+     ([value_de_fuel]), which only ByteBuf's element visitor consumes: [agree_at2] = slack 1; slack 0 is used for ByteBuf's elements. *)
+  Definition agree_at2k (k : nat) (t : ty) : Prop := forall c v fuel fv s w rst,
+    wfb c = true -> denote cf c = Some v -> shp2 c v -> claimb fv t v = true -> wf_value cf v = true -> ws_ok w = true -> follow_ok rst ->
     dbudget cf (cdepth c) (depth s) -> rest s = w ++ render c ++ rst ->
-    (ty_depth t + vfuel c <= fuel)%nat -> (ty_depth t <= fv)%nat ->
-    okrel unborrow (de_value_owned fv cf fx t v) (de_typed fuel E t s) s rst.
+    (ty_depth t + vfuel c <= fuel)%nat -> (k + ty_depth t <= fv)%nat ->
+    okrel2 unborrow (de_value_owned fv cf fx t v) (de_typed fuel E t s) s rst.
+  Definition agree_at2 : ty -> Prop := agree_at2k 1.
 
   (* every type program of Proofs/ValueDeAgree.v whose lemma does not depend on sub-programs *)
+  Lemma agree_at_2k k t : agree_at cf fx t -> agree_at2k k t.
+  Proof.
+    intros H c v fuel fv s w rst Hwf Hden Hsh _ Hwv Hw Hfol Hdb Hr Hfuel Hfv. apply okrel_2.
+    assert (Hfv' : (ty_depth t <= fv)%nat) by (clear - Hfv; lia).
+    exact (H c v fuel fv s w rst Hwf Hden (shape2_shape NR c v Hsh) Hwv Hw Hfol Hdb Hr Hfuel Hfv').
+  Qed.
   Lemma agree_at_2 t : agree_at cf fx t -> agree_at2 t.
-  Proof.
-    intros H c v fuel fv s w rst Hwf Hden Hsh _ Hwv Hw Hfol Hdb Hr Hfuel Hfv.
-    exact (H c v fuel fv s w rst Hwf Hden (shape2_shape c v Hsh) Hwv Hw Hfol Hdb Hr Hfuel Hfv).
-  Qed.
-
-  (* ---- first bytes ---------------------------------------------------------------------------------------------------------------- *)
-  Lemma first_not c b r : wfb c = true -> render c = b :: r -> ws_byte b = false /\
-    ((forall w es, c <> CArr w es) -> b <> 91) /\ ((forall w ms, c <> CObj w ms) -> b <> 123) /\ ((forall ps, c <> CStr ps) -> b <> 34)
-    /\ (c <> CNull -> b <> 110).
-  Proof.
-    intros Hwf Hren. destruct (render_first c Hwf) as (b' & r' & Hren' & Hws & Hkind). rewrite Hren in Hren'. injection Hren' as <- <-.
-    split; [exact Hws|].
-    destruct c as [| | |n|ps|w0 es|w0 ms].
-    - destruct Hkind as [-> _]. repeat split; intros; try discriminate; congruence.
-    - destruct Hkind as [-> _]. repeat split; intros; try discriminate; congruence.
-    - destruct Hkind as [-> _]. repeat split; intros; try discriminate; congruence.
-    - repeat split; intros _; destruct Hkind as [->|Hd]; try discriminate; unfold is_digit in Hd; lia.
-    - destruct Hkind as [-> _]. repeat split; intros Hc; try discriminate. exfalso. exact (Hc ps eq_refl).
-    - destruct Hkind as [-> _]. repeat split; intros Hc; try discriminate. exfalso. exact (Hc w0 es eq_refl).
-    - subst b. repeat split; intros Hc; try discriminate. exfalso. exact (Hc w0 ms eq_refl).
-  Qed.
+  Proof. apply agree_at_2k. Qed.
 
   (* ---- wrappers (as in ValueDeAgree.v, over [agree_at2]) ------------------------------------------------------------------------ *)
   Lemma agree_option2 t1 : agree_at2 t1 -> agree_at2 (TOption t1).
@@ -160,58 +435,58 @@ Section Agree2.
     pose proof Hr as Hr0. rewrite Hren in Hr. revert Hr. lnorm. intros Hr.
     destruct (pws_head cf s w b (r ++ rst) Hw Hbws Hr) as (s1 & Hpw & Hr1 & Hd1).
     cbn [de_typed]. rewrite Hpw. cbn [lift tbind].
-    pose proof (shape2_shape c v Hsh) as Hsh1.
+    pose proof (shape2_shape NR c v Hsh) as Hsh1.
     destruct (b =? 110) eqn:Hb.
     - apply N.eqb_eq in Hb. subst b.
       assert (Hc : c = CNull).
-      { destruct c; try reflexivity; try (destruct Hkind as [Hk _]; discriminate Hk); try discriminate Hkind.
-        destruct Hkind as [Hk|Hk]; [discriminate Hk|discriminate Hk]. }
+      { destruct c; try reflexivity; exfalso;
+          first [discriminate Hkind | destruct Hkind as [Hk _]; discriminate Hk | destruct Hkind as [Hk|Hk]; discriminate Hk]. }
       subst c. destruct v; try discriminate Hsh1. destruct Hkind as [_ ->].
       destruct (parse_ident_fwd cf lit_ull (discard s1) rst) as (s2 & Hid & Hr2 & Hd2).
       { rewrite discard_rest, Hr1. reflexivity. }
-      rewrite Hid. cbn [lift tbind de_value_owned okrel]. exists DNone, s2. rewrite Hd2, discard_depth. auto.
+      rewrite Hid. cbn [lift tbind de_value_owned okrel2]. exists DNone, s2. rewrite Hd2, discard_depth. auto.
     - assert (Hnn : v <> VNull).
       { intros ->. destruct c; try discriminate Hsh1. destruct Hkind as [Hk _]. subst b. discriminate Hb. }
       assert (Hv : de_value_owned (S fv) cf fx (TOption t1) v = vmap DSome (de_value_owned fv cf fx t1 v)).
       { destruct v; try reflexivity. congruence. }
       assert (Hcl1 : claimb fv t1 v = true).
       { destruct v; try exact Hcl. congruence. }
-      rewrite Hv. apply okrel_map; [intros a b' Hab; cbn [unborrow]; rewrite Hab; reflexivity|].
-      apply (okrel_depth unborrow _ _ s1 s rst Hd1).
+      rewrite Hv. apply okrel2_map; [intros a b' Hab; cbn [unborrow]; rewrite Hab; reflexivity|].
+      apply (okrel2_depth unborrow _ _ s1 s rst Hd1).
       apply (IH c v f fv s1 [] rst); try assumption; try reflexivity.
       + rewrite Hd1. exact Hdb.
       + rewrite Hr1, Hren. lnorm. reflexivity.
-      + lia.
-      + lia.
+      + clear - Hfuel. lia.
+      + clear - Hfv. lia.
   Qed.
 
   Lemma agree_newtype2 t1 : agree_at2 t1 -> agree_at2 (TNewtype t1).
   Proof.
     intros IH c v fuel fv s w rst Hwf Hden Hsh Hcl Hwv Hw Hfol Hdb Hr Hfuel Hfv.
     cbn [ty_depth] in Hfuel, Hfv. destruct fuel as [|f]; [lia|]. destruct fv as [|fv]; [lia|].
-    cbn [de_typed de_value_owned]. apply okrel_map; [intros a b' Hab; cbn [unborrow]; rewrite Hab; reflexivity|].
-    apply (IH c v f fv s w rst); try assumption; try lia.
+    cbn [de_typed de_value_owned]. apply okrel2_map; [intros a b' Hab; cbn [unborrow]; rewrite Hab; reflexivity|].
+    apply (IH c v f fv s w rst); try assumption; [clear - Hfuel; lia|clear - Hfv; lia].
   Qed.
 
   (* ---- Vec<T> -------------------------------------------------------------------------------------------------------------------- *)
-  Definition elems_rel2 (t1 : ty) : Prop := forall es l fuel fv first s wp rst,
-    wfb_elems es = true -> denote_elems cf es = Some l -> shape2_elems es l -> forallb (claimb fv t1) l = true ->
+  Definition elems_rel2 (k : nat) (t1 : ty) : Prop := forall es l fuel fv first s wp rst,
+    wfb_elems es = true -> denote_elems cf es = Some l -> shp2_elems es l -> forallb (claimb fv t1) l = true ->
     forallb (wf_value cf) l = true -> ws_ok wp = true ->
     dbudget cf (cdepth_elems es) (depth s) -> rest s = seq_text first wp es ++ 93 :: rst ->
-    (ty_depth t1 + sfuel es <= fuel)%nat -> (ty_depth t1 <= fv)%nat ->
+    (ty_depth t1 + sfuel es <= fuel)%nat -> (k + ty_depth t1 <= fv)%nat ->
     match seq_all (de_value_owned fv cf fx t1) l with
     | VOk (ds, rem) => rem = [] /\ exists ds' s' wl, de_elems fuel E t1 first s = TOk (ds', s') /\ map unborrow ds' = map unborrow ds
                          /\ ws_ok wl = true /\ rest s' = wl ++ 93 :: rst /\ depth s' = depth s
-    | VErr _ _ _ => forall a, de_elems fuel E t1 first s <> TOk a
+    | VErr _ _ _ => not_ok (de_elems fuel E t1 first s)
     | _ => False
     end.
 
-  Lemma elems_agree2 t1 : agree_at2 t1 -> elems_rel2 t1.
+  Lemma elems_agree2 k t1 : agree_at2k k t1 -> elems_rel2 k t1.
   Proof.
     intros IH es. induction es as [|w1 c w2 rest0 IHr]; intros l fuel fv first s wp rst Hwf Hden Hsh Hcl Hwvl Hwp Hdb Hr Hfuel Hfv.
     - cbn [denote_elems] in Hden. injection Hden as <-. cbn [seq_all]. split; [reflexivity|].
       cbn [sfuel] in Hfuel. destruct fuel as [|f]; [lia|]. cbn [seq_text] in Hr.
-      rewrite de_elems_S, (hne_fwd_none cf first s rst). 2:{ rewrite Hr. now apply skipws_to. }
+      rewrite de_elems_S', (hne_fwd_none cf first s rst). 2:{ rewrite Hr. now apply skipws_to. }
       cbn [lift tbind]. exists [], s, wp. auto.
     - cbn [sfuel] in Hfuel. destruct fuel as [|f]; [lia|].
       cbn [wfb_elems] in Hwf. apply andb_prop in Hwf as [Hwf Hwfr]. apply andb_prop in Hwf as [Hwf Hw2].
@@ -221,20 +496,18 @@ Section Agree2.
       cbn [shape2_elems] in Hsh. destruct Hsh as [Hshc Hshr].
       cbn [forallb] in Hwvl, Hcl. apply andb_prop in Hwvl as [Hwvc Hwvr]. apply andb_prop in Hcl as [Hclc Hclr].
       cbn [cdepth_elems] in Hdb.
-      destruct (hne_step cf Hap first s wp w1 c w2 rest0 rst Hwp Hw1 Hwfc Hr) as (s1 & Hh & Hs1 & Hd1).
+      destruct (hne_step' cf first s wp w1 c w2 rest0 rst Hwp Hw1 Hwfc Hr) as (s1 & Hh & Hs1 & Hd1).
       set (rst1 := w2 ++ tail_elems rest0 ++ 93 :: rst) in *.
-      rewrite de_elems_S, Hh. cbn [lift tbind]. cbn [seq_all].
-      assert (Hel := IH c v f fv s1 [] rst1 Hwfc Hdc Hshc Hclc Hwvc eq_refl).
-      assert (Hfol1 : follow_ok rst1).
-      { unfold rst1. apply follow_ws; [exact Hw2|]. destruct rest0; cbn [tail_elems app follow_ok]; auto. }
-      specialize (Hel Hfol1). rewrite Hd1 in Hel. specialize (Hel (dbudget_le _ _ _ _ (Nat.le_max_l _ _) Hdb) Hs1).
-      assert (Hf1 : (ty_depth t1 + vfuel c <= f)%nat) by lia. specialize (Hel Hf1 Hfv).
-      destruct (de_value_owned fv cf fx t1 v) as [d| | |]; cbn [okrel vbind] in Hel |- *; try contradiction.
+      rewrite de_elems_S', Hh. cbn [lift tbind]. cbn [seq_all].
+      assert (Hel := IH c v f fv s1 [] rst1 Hwfc Hdc Hshc Hclc Hwvc eq_refl (follow_elems_tail w2 rest0 rst Hw2)).
+      rewrite Hd1 in Hel. specialize (Hel (dbudget_le _ _ _ _ (Nat.le_max_l _ _) Hdb) Hs1).
+      assert (Hf1 : (ty_depth t1 + vfuel c <= f)%nat) by (clear - Hfuel; lia). specialize (Hel Hf1 Hfv).
+      destruct (de_value_owned fv cf fx t1 v) as [d| | |]; cbn [okrel2 vbind] in Hel |- *; try contradiction.
       + destruct Hel as (d' & s2 & Hv & Hud & Hr2 & Hd2). rewrite Hv. cbn [tbind].
         assert (Hrest := IHr vs0 f fv false s2 w2 rst Hwfr eq_refl Hshr Hclr Hwvr Hw2).
         rewrite Hd2, Hd1 in Hrest. specialize (Hrest (dbudget_le _ _ _ _ (Nat.le_max_r _ _) Hdb)).
         assert (Hr2' : rest s2 = seq_text false w2 rest0 ++ 93 :: rst) by (rewrite Hr2, seq_text_false; unfold rst1; lnorm; reflexivity).
-        assert (Hf2 : (ty_depth t1 + sfuel rest0 <= f)%nat) by lia. specialize (Hrest Hr2' Hf2 Hfv).
+        assert (Hf2 : (ty_depth t1 + sfuel rest0 <= f)%nat) by (clear - Hfuel; lia). specialize (Hrest Hr2' Hf2 Hfv).
         destruct (seq_all (de_value_owned fv cf fx t1) vs0) as [[ds rem]| | |]; cbn [vbind]; try contradiction.
         * destruct Hrest as (-> & ds' & s3 & wl & He & Hu & Hwl & Hr3 & Hd3). split; [reflexivity|].
           rewrite He. cbn [tbind]. exists (d' :: ds'), s3, wl. split; [reflexivity|]. cbn [map]. rewrite Hud, Hu.
@@ -242,25 +515,32 @@ Section Agree2.
         * intros a. destruct (de_elems f E t1 false s2) as [[ds' s3]| | | |] eqn:He; cbn [tbind]; try discriminate.
           exfalso. exact (Hrest _ eq_refl).
       + intros a. destruct (de_typed f E t1 s1) as [[d' s2]| | | |] eqn:Hv; cbn [tbind]; try discriminate.
-        exfalso. exact (Hel _ eq_refl).
+        specialize (Hel _ _ eq_refl).
+        destruct (de_elems f E t1 false s2) as [[ds' s3]| | | |] eqn:He; cbn [tbind]; try discriminate.
+        exfalso. exact (de_elems_stuck cf f t1 s2 Hel _ He).
   Qed.
 
-  (* the array frame around a body whose loop result is known *)
-  Lemma arr_close {A} (body : st -> tres (A * st)) w0 es s s1 s2 x s3 wl rst :
-    dbudget cf (cdepth (CArr w0 es)) (depth s) -> enter E s1 = Ok s2 ->
+  (* `[` elements `]` read by Vec's visitor: visit_array(_owned) against a `[`-frame over de_elems *)
+  Lemma elems_array k (C : list dval -> dval) t1 w0 es l f fv s s1 s2 rst :
+    (forall a b, map unborrow a = map unborrow b -> unborrow (C a) = unborrow (C b)) ->
+    agree_at2k k t1 -> ws_ok w0 = true -> wfb_elems es = true -> denote_elems cf es = Some l -> shp2_elems es l ->
+    forallb (claimb fv t1) l = true -> forallb (wf_value cf) l = true ->
+    dbudget cf (cdepth (CArr w0 es)) (depth s) -> enter E s1 = Ok s2 -> rest (discard s2) = seq_text true w0 es ++ 93 :: rst ->
     depth s1 = depth s -> depth (discard s2) = (if limit_disabled cf then depth s else depth s - 1) ->
-    body (discard s2) = TOk (x, s3) -> ws_ok wl = true -> rest s3 = wl ++ 93 :: rst -> depth s3 = depth (discard s2) ->
-    exists s5, frame E end_seq end_seq_st body s1 = TOk (x, s5) /\ rest s5 = rst /\ depth s5 = depth s.
+    dbudget cf (cdepth_elems es) (depth (discard s2)) ->
+    (ty_depth t1 + sfuel es <= f)%nat -> (k + ty_depth t1 <= fv)%nat ->
+    okrel2 unborrow (vmap C (visit_array_owned l (seq_all (de_value_owned fv cf fx t1))))
+                    (tmap C (fix_position E (frame E end_seq end_seq_st (fun s' => de_elems f E t1 true s') s1))) s rst.
   Proof.
-    intros Hdb Hen Hd1 Hd2 He Hwl Hr3 Hd3. unfold frame. rewrite Hen. cbn [lift tbind]. rewrite He.
-    destruct (leave_fwd cf s3) as (s4 & Hlv & Hr4 & Hd4).
-    { intros Hl. specialize (Hdb Hl). cbn [cdepth] in Hdb. rewrite Hd3, Hd2, Hl. lia. }
-    rewrite Hlv. cbn [lift tbind].
-    destruct (end_seq_fwd cf s4 rst) as (s5 & Hes & Hr5 & Hd5).
-    { rewrite Hr4, Hr3. now apply skipws_to. }
-    rewrite Hes. cbn [lift tbind]. exists s5. split; [reflexivity|]. split; [exact Hr5|].
-    rewrite Hd5, Hd4, Hd3, Hd2. unfold dbudget in Hdb. cbn [cdepth] in Hdb. destruct (limit_disabled cf); [reflexivity|].
-    specialize (Hdb eq_refl). lia.
+    intros HC IH Hw0 Hwfe Hde Hsh Hcl Hwv Hdb Hen Hrb Hd1 Hd2 Hdb2 Hf1 Hf2.
+    assert (Hloop := elems_agree2 k t1 IH es l f fv true (discard s2) w0 rst Hwfe Hde Hsh Hcl Hwv Hw0 Hdb2 Hrb Hf1 Hf2).
+    unfold visit_array_owned.
+    destruct (seq_all (de_value_owned fv cf fx t1) l) as [[ds rem]| | |]; cbn [vbind vmap]; try contradiction.
+    - destruct Hloop as (-> & ds' & s3 & wl & He & Hu & Hwl & Hr3 & Hd3). cbn [vbind vmap okrel2].
+      destruct (close_frame cf end_seq end_seq_st 93 (fun s' => de_elems f E t1 true s') (cdepth_elems es) s s1 s2 ds' s3 wl rst
+                  (closes_seq cf) eq_refl Hdb Hen Hd1 Hd2 He Hwl Hr3 Hd3) as (s5 & Hfr & Hr5 & Hd5).
+      rewrite Hfr. cbn [fix_position tmap tbind]. exists (C ds'), s5. split; [reflexivity|]. split; [apply HC, Hu|]. auto.
+    - apply okrel2_not_ok. apply tmap_not_ok'. intros a. apply fix_position_not_ok. apply (frame_fail cf _ _ _ s1 s2 Hen). exact Hloop.
   Qed.
 
   Lemma agree_seq2 t1 : agree_at2 t1 -> agree_at2 (TSeq t1).
@@ -271,51 +551,45 @@ Section Agree2.
     pose proof Hr as Hr0. rewrite Hren in Hr. revert Hr. lnorm. intros Hr.
     destruct (first_not c b r Hwf Hren) as (_ & Hn91 & _).
     destruct c as [| | |n|ps|w0 es|w0 ms]; destruct v as [|[|]| | |l|]; cbn [shape2 shape] in Hsh; try discriminate Hsh; try contradiction;
-      cbn [de_value_owned okrel verr].
-    all: try (apply (reject_not_ok cf (TSeq t1) f s w b (r ++ rst) Hw Hbws Hr); apply Hn91; intros; discriminate).
+      cbn [de_value_owned]; unfold verr.
+    all: try (apply okrel2_not_ok; intros a0; apply (reject_not_ok cf (TSeq t1) f s w b (r ++ rst) Hw Hbws Hr); apply Hn91; intros; discriminate).
     cbn [wfb denote] in Hwf, Hden. apply andb_prop in Hwf as [Hw0 Hwfe].
     destruct (denote_elems cf es) as [l'|] eqn:Hde; [|discriminate Hden]. injection Hden as <-.
-    destruct (arr_frame cf Hap (fun s' => de_elems f E t1 true s') w0 es s w rst Hw Hr0 Hdb)
-      as (s1 & s2 & Hds & Hen & Hrb & Hd1 & Hd2 & Hdb2).
-    cbn [de_typed]. rewrite Hds.
+    rewrite render_arr in Hr0. revert Hr0. lnorm. intros Hr0.
+    destruct (open_frame cf 91 _ (cdepth_elems es) s w Hw eq_refl Hr0 Hdb) as (s1 & s2 & Hpw & Hen & Hrb & Hd1 & Hd2 & Hdb2).
+    cbn [de_typed]. unfold deserialize_seq. rewrite Hpw. cbn [lift tbind]. change (91 =? 91) with true. cbv iota.
     cbn [ty_depth vfuel] in Hfuel, Hfv. cbn [claimb] in Hcl. cbn [wf_value] in Hwv.
-    assert (Hloop := elems_agree2 t1 IH es l' f fv true (discard s2) w0 rst Hwfe Hde Hsh Hcl Hwv Hw0 Hdb2 Hrb).
-    assert (Hf1 : (ty_depth t1 + sfuel es <= f)%nat) by lia. assert (Hf2 : (ty_depth t1 <= fv)%nat) by lia.
-    specialize (Hloop Hf1 Hf2). unfold visit_array_owned.
-    destruct (seq_all (de_value_owned fv cf fx t1) l') as [[ds rem]| | |]; cbn [vbind vmap okrel]; try contradiction.
-    - destruct Hloop as (-> & ds' & s3 & wl & He & Hu & Hwl & Hr3 & Hd3). cbn [vbind okrel].
-      destruct (arr_close _ w0 es s s1 s2 ds' s3 wl rst Hdb Hen Hd1 Hd2 He Hwl Hr3 Hd3) as (s5 & Hfr & Hr5 & Hd5).
-      rewrite Hfr. cbn [fix_position tmap tbind]. exists (DSeq ds'), s5. split; [reflexivity|]. cbn [unborrow]. rewrite Hu. auto.
-    - apply tmap_not_ok. apply fix_position_not_ok. apply (frame_not_ok cf _ s1 s2 Hen). exact Hloop.
+    apply (elems_array 1 DSeq t1 w0 es l' f fv s s1 s2 rst); try assumption; [|clear - Hfuel; lia|clear - Hfv; lia].
+    intros a b' Hab. cbn [unborrow]. rewrite Hab. reflexivity.
   Qed.
 
   (* ---- tuples / tuple structs / positional structs ------------------------------------------------------------------------------ *)
-  Lemma shape2_nil es l : shape2_elems es l -> (l = [] <-> es = ENil).
+  Lemma shape2_nil es l : shp2_elems es l -> (l = [] <-> es = ENil).
   Proof. destruct es, l; cbn [shape2_elems]; intros H; try contradiction; split; intros H'; try reflexivity; discriminate H'. Qed.
 
   Definition tuple_rel2 (ts : list ty) : Prop := forall es l fuel fv first s wp rst D,
     (forall t, In t ts -> agree_at2 t /\ (ty_depth t <= D)%nat) ->
-    wfb_elems es = true -> denote_elems cf es = Some l -> shape2_elems es l -> claim_list (claimb fv) ts l = true ->
+    wfb_elems es = true -> denote_elems cf es = Some l -> shp2_elems es l -> claim_list (claimb fv) ts l = true ->
     forallb (wf_value cf) l = true -> ws_ok wp = true ->
     dbudget cf (cdepth_elems es) (depth s) -> rest s = seq_text first wp es ++ 93 :: rst ->
-    (D + sfuel es <= fuel)%nat -> (D <= fv)%nat ->
+    (D + sfuel es <= fuel)%nat -> (D < fv)%nat ->
     match seq_tuple (de_value_owned fv cf fx) ts l with
     | VOk (ds, rem) => exists ds' s' first' wl es', de_tuple fuel E ts first s = TOk (ds', s') /\ map unborrow ds' = map unborrow ds
          /\ ws_ok wl = true /\ rest s' = seq_text first' wl es' ++ 93 :: rst /\ depth s' = depth s
          /\ wfb_elems es' = true /\ (rem = [] <-> es' = ENil)
-    | VErr _ _ _ => forall a, de_tuple fuel E ts first s <> TOk a
+    | VErr _ _ _ => forall a s', de_tuple fuel E ts first s = TOk (a, s') -> stuck (rest s')
     | _ => False
     end.
 
   Lemma tuple_agree2 ts : tuple_rel2 ts.
   Proof.
     induction ts as [|t ts' IHts]; intros es l fuel fv first s wp rst D HIH Hwf Hden Hsh Hcl Hwvl Hwp Hdb Hr Hfuel Hfv.
-    - cbn [seq_tuple]. pose proof (sfuel_pos es). destruct fuel as [|f]; [lia|]. rewrite de_tuple_S.
+    - cbn [seq_tuple]. pose proof (sfuel_pos' es). destruct fuel as [|f]; [lia|]. rewrite de_tuple_S'.
       exists [], s, first, wp, es. split; [reflexivity|]. split; [reflexivity|]. split; [exact Hwp|]. split; [exact Hr|].
       split; [reflexivity|]. split; [exact Hwf|]. apply shape2_nil. exact Hsh.
-    - pose proof (sfuel_pos es). destruct fuel as [|f]; [lia|]. rewrite de_tuple_S.
+    - pose proof (sfuel_pos' es). destruct fuel as [|f]; [lia|]. rewrite de_tuple_S'.
       destruct es as [|w1 c w2 rest0].
-      + destruct l; [|contradiction]. cbn [seq_tuple verr]. intros a. cbn [seq_text] in Hr.
+      + destruct l; [|contradiction]. cbn [seq_tuple verr]. intros a s'. cbn [seq_text] in Hr.
         rewrite (hne_fwd_none cf first s rst). 2:{ rewrite Hr. now apply skipws_to. }
         cbn [lift tbind]. discriminate.
       + cbn [sfuel] in Hfuel.
@@ -327,58 +601,68 @@ Section Agree2.
         cbn [forallb] in Hwvl. apply andb_prop in Hwvl as [Hwvc Hwvr].
         cbn [claim_list] in Hcl. apply andb_prop in Hcl as [Hclc Hclr].
         cbn [cdepth_elems] in Hdb.
-        destruct (hne_step cf Hap first s wp w1 c w2 rest0 rst Hwp Hw1 Hwfc Hr) as (s1 & Hh & Hs1 & Hd1).
+        destruct (hne_step' cf first s wp w1 c w2 rest0 rst Hwp Hw1 Hwfc Hr) as (s1 & Hh & Hs1 & Hd1).
         set (rst1 := w2 ++ tail_elems rest0 ++ 93 :: rst) in *.
         rewrite Hh. cbn [lift tbind]. cbn [seq_tuple].
         destruct (HIH t (or_introl eq_refl)) as [IHt HtD].
-        assert (Hfol1 : follow_ok rst1).
-        { unfold rst1. apply follow_ws; [exact Hw2|]. destruct rest0; cbn [tail_elems app follow_ok]; auto. }
-        assert (Hel := IHt c v f fv s1 [] rst1 Hwfc Hdc Hshc Hclc Hwvc eq_refl Hfol1).
+        assert (Hel := IHt c v f fv s1 [] rst1 Hwfc Hdc Hshc Hclc Hwvc eq_refl (follow_elems_tail w2 rest0 rst Hw2)).
         rewrite Hd1 in Hel. specialize (Hel (dbudget_le _ _ _ _ (Nat.le_max_l _ _) Hdb) Hs1).
-        assert (Hf1 : (ty_depth t + vfuel c <= f)%nat) by lia. assert (Hf1' : (ty_depth t <= fv)%nat) by lia.
+        assert (Hf1 : (ty_depth t + vfuel c <= f)%nat) by (clear - Hfuel HtD; lia).
+        assert (Hf1' : (ty_depth t < fv)%nat) by (clear - Hfv HtD; lia).
         specialize (Hel Hf1 Hf1').
-        destruct (de_value_owned fv cf fx t v) as [d| | |]; cbn [okrel vbind] in Hel |- *; try contradiction.
+        destruct (de_value_owned fv cf fx t v) as [d| | |]; cbn [okrel2 vbind] in Hel |- *; try contradiction.
         * destruct Hel as (d' & s2 & Hv & Hud & Hr2 & Hd2). rewrite Hv. cbn [tbind].
           assert (Hrest := IHts rest0 vs0 f fv false s2 w2 rst D (fun t' Hin => HIH t' (or_intror Hin)) Hwfr Hdr Hshr Hclr Hwvr Hw2).
           rewrite Hd2, Hd1 in Hrest. specialize (Hrest (dbudget_le _ _ _ _ (Nat.le_max_r _ _) Hdb)).
           assert (Hr2' : rest s2 = seq_text false w2 rest0 ++ 93 :: rst) by (rewrite Hr2, seq_text_false; unfold rst1; lnorm; reflexivity).
-          assert (Hf2 : (D + sfuel rest0 <= f)%nat) by lia. specialize (Hrest Hr2' Hf2 Hfv).
+          assert (Hf2 : (D + sfuel rest0 <= f)%nat) by (clear - Hfuel; lia). specialize (Hrest Hr2' Hf2 Hfv).
           destruct (seq_tuple (de_value_owned fv cf fx) ts' vs0) as [[ds rem]| | |]; cbn [vbind]; try contradiction.
           -- destruct Hrest as (ds' & s3 & first' & wl & es' & He & Hu & Hwl & Hr3 & Hd3 & Hwf' & Hrem).
              rewrite He. cbn [tbind]. exists (d' :: ds'), s3, first', wl, es'. split; [reflexivity|]. cbn [map]. rewrite Hud, Hu.
              split; [reflexivity|]. split; [exact Hwl|]. split; [exact Hr3|]. split; [congruence|]. split; [exact Hwf'|exact Hrem].
-          -- intros a. destruct (de_tuple f E ts' false s2) as [[ds' s3]| | | |] eqn:He; cbn [tbind]; try discriminate.
-             exfalso. exact (Hrest _ eq_refl).
-        * intros a. destruct (de_typed f E t s1) as [[d' s2]| | | |] eqn:Hv; cbn [tbind]; try discriminate.
-          exfalso. exact (Hel _ eq_refl).
+          -- intros a s'. destruct (de_tuple f E ts' false s2) as [[ds' s3]| | | |] eqn:He; cbn [tbind]; try discriminate.
+             intros [= _ <-]. exact (Hrest _ _ eq_refl).
+        * intros a s'. destruct (de_typed f E t s1) as [[d' s2]| | | |] eqn:Hv; cbn [tbind]; try discriminate.
+          specialize (Hel _ _ eq_refl).
+          destruct (de_tuple f E ts' false s2) as [[ds' s3]| | | |] eqn:He; cbn [tbind]; try discriminate.
+          intros [= _ <-]. exact (de_tuple_stuck cf f ts' s2 Hel _ _ He).
   Qed.
 
-  (* `[` elements `]` read by a fixed-length visitor: visit_array(_owned) against deserialize_seq over de_tuple *)
-  Lemma tuple_array ts w0 es l f fv s w rst D :
+  (* `[` elements `]` read by a fixed-length visitor: visit_array(_owned) against a `[`-frame over de_tuple *)
+  Lemma tuple_array (C : list dval -> dval) ts w0 es l f fv s s1 s2 rst D :
+    (forall a b, map unborrow a = map unborrow b -> unborrow (C a) = unborrow (C b)) ->
     (forall t, In t ts -> agree_at2 t /\ (ty_depth t <= D)%nat) ->
-    ws_ok w0 = true -> wfb_elems es = true -> denote_elems cf es = Some l -> shape2_elems es l -> claim_list (claimb fv) ts l = true ->
-    forallb (wf_value cf) l = true -> ws_ok w = true -> dbudget cf (cdepth (CArr w0 es)) (depth s) ->
-    rest s = w ++ render (CArr w0 es) ++ rst -> (D + sfuel es <= f)%nat -> (D <= fv)%nat ->
-    okrel unborrow (vmap DSeq (visit_array_owned l (seq_tuple (de_value_owned fv cf fx) ts)))
-                   (tmap DSeq (deserialize_seq E (fun s' => de_tuple f E ts true s') s)) s rst.
+    ws_ok w0 = true -> wfb_elems es = true -> denote_elems cf es = Some l -> shp2_elems es l -> claim_list (claimb fv) ts l = true ->
+    forallb (wf_value cf) l = true ->
+    dbudget cf (cdepth (CArr w0 es)) (depth s) -> enter E s1 = Ok s2 -> rest (discard s2) = seq_text true w0 es ++ 93 :: rst ->
+    depth s1 = depth s -> depth (discard s2) = (if limit_disabled cf then depth s else depth s - 1) ->
+    dbudget cf (cdepth_elems es) (depth (discard s2)) ->
+    (D + sfuel es <= f)%nat -> (D < fv)%nat ->
+    okrel2 unborrow (vmap C (visit_array_owned l (seq_tuple (de_value_owned fv cf fx) ts)))
+                    (tmap C (fix_position E (frame E end_seq end_seq_st (fun s' => de_tuple f E ts true s') s1))) s rst.
   Proof.
-    intros HIH Hw0 Hwfe Hde Hsh Hcl Hwv Hw Hdb Hr0 Hf1 Hf2.
-    destruct (arr_frame cf Hap (fun s' => de_tuple f E ts true s') w0 es s w rst Hw Hr0 Hdb)
-      as (s1 & s2 & Hds & Hen & Hrb & Hd1 & Hd2 & Hdb2).
-    rewrite Hds.
+    intros HC HIH Hw0 Hwfe Hde Hsh Hcl Hwv Hdb Hen Hrb Hd1 Hd2 Hdb2 Hf1 Hf2.
     assert (Hloop := tuple_agree2 ts es l f fv true (discard s2) w0 rst D HIH Hwfe Hde Hsh Hcl Hwv Hw0 Hdb2 Hrb Hf1 Hf2).
     unfold visit_array_owned.
-    destruct (seq_tuple (de_value_owned fv cf fx) ts l) as [[ds rem]| | |]; cbn [vbind vmap okrel]; try contradiction.
+    destruct (seq_tuple (de_value_owned fv cf fx) ts l) as [[ds rem]| | |]; cbn [vbind vmap]; try contradiction.
     - destruct Hloop as (ds' & s3 & first' & wl & es' & He & Hu & Hwl & Hr3 & Hd3 & Hwf' & Hrem).
-      destruct rem as [|x rem]; unfold verr; cbn [vbind vmap okrel].
+      destruct rem as [|x rem]; unfold verr; cbn [vbind vmap].
       + assert (Hes' : es' = ENil) by (apply Hrem; reflexivity). subst es'. cbn [seq_text] in Hr3.
-        destruct (arr_close _ w0 es s s1 s2 ds' s3 wl rst Hdb Hen Hd1 Hd2 He Hwl Hr3 Hd3) as (s5 & Hfr & Hr5 & Hd5).
-        rewrite Hfr. cbn [fix_position tmap tbind]. exists (DSeq ds'), s5. split; [reflexivity|]. cbn [unborrow]. rewrite Hu. auto.
-      + apply tmap_not_ok. apply fix_position_not_ok. apply (frame_blocked cf _ s1 s2 ds' s3 Hen He).
-        intros s4 s5 Hr4. apply (end_seq_blocked cf first' wl es' rst s4 Hwl Hwf').
+        destruct (close_frame cf end_seq end_seq_st 93 (fun s' => de_tuple f E ts true s') (cdepth_elems es) s s1 s2 ds' s3 wl rst
+                    (closes_seq cf) eq_refl Hdb Hen Hd1 Hd2 He Hwl Hr3 Hd3) as (s5 & Hfr & Hr5 & Hd5).
+        rewrite Hfr. cbn [fix_position tmap tbind okrel2]. exists (C ds'), s5. split; [reflexivity|]. split; [apply HC, Hu|]. auto.
+      + apply okrel2_not_ok. apply tmap_not_ok'. intros a. apply fix_position_not_ok.
+        apply (frame_blocked' cf _ _ _ s1 s2 ds' s3 Hen He).
+        intros s4 s5 Hr4. apply (end_seq_blocked' cf first' wl es' rst s4 Hwl Hwf').
         * intros Hn. apply Hrem in Hn. discriminate Hn.
         * rewrite Hr4. exact Hr3.
-    - apply tmap_not_ok. apply fix_position_not_ok. apply (frame_not_ok cf _ s1 s2 Hen). exact Hloop.
+    - apply okrel2_not_ok. apply tmap_not_ok'. intros a. apply fix_position_not_ok.
+      destruct (de_tuple f E ts true (discard s2)) as [[ds' s3]| | | |] eqn:He.
+      + apply (frame_blocked' cf _ _ _ s1 s2 ds' s3 Hen He). intros s4 s5 Hr4. apply end_seq_stuck. rewrite Hr4. exact (Hloop _ _ eq_refl).
+      + apply (frame_fail cf _ _ _ s1 s2 Hen). rewrite He. discriminate.
+      + apply (frame_fail cf _ _ _ s1 s2 Hen). rewrite He. discriminate.
+      + apply (frame_fail cf _ _ _ s1 s2 Hen). rewrite He. discriminate.
+      + apply (frame_fail cf _ _ _ s1 s2 Hen). rewrite He. discriminate.
   Qed.
 
   Lemma agree_tuple_gen2 t ts : t = TTuple ts \/ t = TTupleStruct ts -> (forall t', In t' ts -> agree_at2 t') -> agree_at2 t.
@@ -399,12 +683,344 @@ Section Agree2.
     destruct (first_not c b r Hwf Hren) as (_ & Hn91 & _).
     rewrite Hv.
     destruct c as [| | |n|ps|w0 es|w0 ms]; destruct v as [|[|]| | |l|]; cbn [shape2 shape] in Hsh; try discriminate Hsh; try contradiction;
-      cbn [okrel verr].
-    all: try (apply (reject_not_ok cf t f s w b (r ++ rst) Hw Hbws Hr); apply Hrej, Hn91; intros; discriminate).
+      unfold verr.
+    all: try (apply okrel2_not_ok; intros a0; apply (reject_not_ok cf t f s w b (r ++ rst) Hw Hbws Hr); apply Hrej, Hn91; intros; discriminate).
     cbn [wfb denote] in Hwf, Hden. apply andb_prop in Hwf as [Hw0 Hwfe].
     destruct (denote_elems cf es) as [l'|] eqn:Hde; [|discriminate Hden]. injection Hden as <-.
-    rewrite Ht'. rewrite Hcl' in Hcl. cbn [vfuel] in Hfuel. cbn [wf_value] in Hwv.
-    apply (tuple_array ts w0 es l' f fv s w rst (lmax_depth ts)); try assumption; try lia.
-    intros t' Hin. split; [apply HIH, Hin|apply lmax_depth_in, Hin].
+    rewrite render_arr in Hr0. revert Hr0. lnorm. intros Hr0.
+    destruct (open_frame cf 91 _ (cdepth_elems es) s w Hw eq_refl Hr0 Hdb) as (s1 & s2 & Hpw & Hen & Hrb & Hd1 & Hd2 & Hdb2).
+    rewrite Ht'. unfold deserialize_seq. rewrite Hpw. cbn [lift tbind]. change (91 =? 91) with true. cbv iota.
+    rewrite Hcl' in Hcl. cbn [vfuel] in Hfuel. cbn [wf_value] in Hwv.
+    apply (tuple_array DSeq ts w0 es l' f fv s s1 s2 rst (lmax_depth ts)); try assumption; [| |clear - Hfuel; lia|clear - Hfv; lia].
+    - intros a b' Hab. cbn [unborrow]. rewrite Hab. reflexivity.
+    - intros t' Hin. split; [apply HIH, Hin|apply lmax_depth_in', Hin].
+  Qed.
+
+  (* ---- objects: the entries of the Value's Map are the members of the tree, in order ------------------------------------------- *)
+  Lemma members_keys ms : forall l m, denote_members cf ms = Some l -> shp2_members ms m ->
+    forallb (fun kv => utf8_valid (fst kv) && wf_value cf (snd kv)) m = true -> map fst l = map fst m.
+  Proof.
+    induction ms as [|w1 k w2 w3 c w4 rest0 IH]; intros l m Hden Hsh Hwv.
+    - cbn [denote_members] in Hden. injection Hden as <-. destruct m; [reflexivity|contradiction].
+    - destruct m as [|kv m']; [contradiction|]. cbn [shape2_members] in Hsh. destruct Hsh as (Hk & _ & Hshr).
+      cbn [forallb] in Hwv. apply andb_prop in Hwv as [Hkv Hwvr]. apply andb_prop in Hkv as [Hu _].
+      cbn [denote_members] in Hden. subst k. rewrite (str_text_pieces _ Hu) in Hden.
+      destruct (denote cf c); [|discriminate]. destruct (denote_members cf rest0) as [vs0|] eqn:Hdr; [|discriminate].
+      injection Hden as <-. cbn [map fst]. f_equal. apply (IH vs0 m' eq_refl Hshr Hwvr).
+  Qed.
+
+  Lemma obj_members w0 ms m : denote cf (CObj w0 ms) = Some (VObj m) -> shp2_members ms m -> wf_value cf (VObj m) = true ->
+    denote_members cf ms = Some m.
+  Proof.
+    intros Hden Hsh Hwv. cbn [denote] in Hden. destruct (denote_members cf ms) as [l|] eqn:Hdm; [|discriminate]. cbn [option_map] in Hden.
+    injection Hden as Hm. cbn [wf_value] in Hwv. apply andb_prop in Hwv as [Hwe Hk].
+    pose proof (members_keys ms l m Hdm Hsh Hwe) as Hkeys.
+    rewrite map_of_entries_id in Hm by (rewrite Hkeys; exact Hk). subst l. reflexivity.
+  Qed.
+
+  (* ---- maps ---------------------------------------------------------------------------------------------------------------------- *)
+  Definition ubkv (kv : dval * dval) : dval * dval := (unborrow (fst kv), unborrow (snd kv)).
+
+  Definition entries_rel2 (k : kty) (t1 : ty) : Prop := forall ms m fuel fv first s wp rst,
+    wfb_members ms = true -> denote_members cf ms = Some m -> shp2_members ms m ->
+    forallb (fun kv => claimb fv t1 (snd kv)) m = true ->
+    forallb (fun kv => utf8_valid (fst kv) && wf_value cf (snd kv)) m = true -> ws_ok wp = true ->
+    dbudget cf (cdepth_members ms) (depth s) -> rest s = map_text first wp ms ++ 125 :: rst ->
+    (Nat.max (kty_depth k) (ty_depth t1) + mfuel ms <= fuel)%nat -> (ty_depth t1 < fv)%nat ->
+    match map_all (de_value_key cf false k) (de_value_owned fv cf fx t1) m with
+    | VOk (es, rem) => rem = [] /\ exists es' s' wl, de_entries fuel E k t1 first s = TOk (es', s') /\ map ubkv es' = map ubkv es
+                         /\ ws_ok wl = true /\ rest s' = wl ++ 125 :: rst /\ depth s' = depth s
+    | VErr _ _ _ => not_ok (de_entries fuel E k t1 first s)
+    | _ => False
+    end.
+
+  Lemma entries_agree2 k t1 : agree_kty k = true -> agree_at2 t1 -> entries_rel2 k t1.
+  Proof.
+    intros Hk IH ms. induction ms as [|w1 kp w2 w3 c w4 rest0 IHr]; intros m fuel fv first s wp rst Hwf Hden Hsh Hcl Hwvl Hwp Hdb Hr Hfuel Hfv.
+    - cbn [denote_members] in Hden. injection Hden as <-. cbn [map_all]. split; [reflexivity|].
+      cbn [mfuel] in Hfuel. destruct fuel as [|f]; [lia|]. cbn [map_text] in Hr.
+      rewrite de_entries_S, (hnk_fwd_none cf first s rst). 2:{ rewrite Hr. now apply skipws_to. }
+      cbn [lift tbind]. exists [], s, wp. auto.
+    - cbn [mfuel] in Hfuel. destruct fuel as [|f]; [lia|].
+      cbn [wfb_members] in Hwf. apply andb_prop in Hwf as [Hwf Hwfr]. apply andb_prop in Hwf as [Hwf Hw4].
+      apply andb_prop in Hwf as [Hwf Hwfc]. apply andb_prop in Hwf as [Hwf Hw3]. apply andb_prop in Hwf as [Hwf Hw2].
+      apply andb_prop in Hwf as [Hw1 Hkok].
+      cbn [denote_members] in Hden. destruct (str_text kp) as [kb|] eqn:Hkt; [|discriminate].
+      destruct (denote cf c) as [v|] eqn:Hdc; [|discriminate].
+      destruct (denote_members cf rest0) as [vs0|] eqn:Hdr; [|discriminate]. injection Hden as <-.
+      cbn [shape2_members fst snd] in Hsh. destruct Hsh as (Hkp & Hshc & Hshr).
+      cbn [forallb fst snd] in Hwvl, Hcl. apply andb_prop in Hwvl as [Hwvc Hwvr]. apply andb_prop in Hwvc as [Hu Hwvc].
+      apply andb_prop in Hcl as [Hclc Hclr].
+      cbn [cdepth_members] in Hdb.
+      destruct (hnk_step cf first s wp w1 kp w2 w3 c w4 rest0 rst Hwp Hw1 Hr) as (s1 & Hh & Hs1 & Hd1).
+      set (rst1 := w4 ++ tail_members rest0 ++ 125 :: rst) in *.
+      set (rstk := w2 ++ 58 :: w3 ++ render c ++ rst1) in *.
+      rewrite de_entries_S, Hh. cbn [lift tbind map_all].
+      subst kp. change (flat_map render_piece (pieces_of kb)) with (Lk kb) in Hs1.
+      assert (Hfk : (kty_depth k <= f)%nat) by (clear - Hfuel; lia).
+      assert (Hkey := key_agree cf Hap k kb f s1 rstk Hk Hu Hs1 Hfk).
+      destruct (de_value_key cf false k kb) as [kd| | |]; cbn [okrel vbind] in Hkey |- *; try contradiction.
+      + destruct Hkey as (kd' & s2 & Hkt2 & Hukd & Hr2 & Hd2). rewrite Hkt2. cbn [tbind].
+        destruct (colon_step cf s2 w2 (w3 ++ render c ++ rst1) Hw2 Hr2) as (s3 & Hcol & Hr3 & Hd3).
+        rewrite Hcol. cbn [lift tbind].
+        assert (Hel := IH c v f fv s3 w3 rst1 Hwfc Hdc Hshc Hclc Hwvc Hw3 (follow_members_tail w4 rest0 rst Hw4)).
+        rewrite Hd3, Hd2, Hd1 in Hel. specialize (Hel (dbudget_le _ _ _ _ (Nat.le_max_l _ _) Hdb) Hr3).
+        assert (Hf1 : (ty_depth t1 + vfuel c <= f)%nat) by (clear - Hfuel; lia). specialize (Hel Hf1 Hfv).
+        destruct (de_value_owned fv cf fx t1 v) as [d| | |]; cbn [okrel2 vbind] in Hel |- *; try contradiction.
+        * destruct Hel as (d' & s4 & Hv & Hud & Hr4 & Hd4). rewrite Hv. cbn [tbind].
+          assert (Hrest := IHr vs0 f fv false s4 w4 rst Hwfr eq_refl Hshr Hclr Hwvr Hw4).
+          rewrite Hd4, Hd3, Hd2, Hd1 in Hrest. specialize (Hrest (dbudget_le _ _ _ _ (Nat.le_max_r _ _) Hdb)).
+          assert (Hr4' : rest s4 = map_text false w4 rest0 ++ 125 :: rst) by (rewrite Hr4, map_text_false; unfold rst1; lnorm; reflexivity).
+          assert (Hf2 : (Nat.max (kty_depth k) (ty_depth t1) + mfuel rest0 <= f)%nat) by (clear - Hfuel; lia).
+          specialize (Hrest Hr4' Hf2 Hfv).
+          destruct (map_all (de_value_key cf false k) (de_value_owned fv cf fx t1) vs0) as [[es rem]| | |]; cbn [vbind]; try contradiction.
+          -- destruct Hrest as (-> & es' & s5 & wl & He & Hu5 & Hwl & Hr5 & Hd5). split; [reflexivity|].
+             rewrite He. cbn [tbind]. exists ((kd', d') :: es'), s5, wl. split; [reflexivity|]. cbn [map]. rewrite Hu5.
+             unfold ubkv at 1 3. cbn [fst snd]. rewrite Hukd, Hud.
+             split; [reflexivity|]. split; [exact Hwl|]. split; [exact Hr5|]. congruence.
+          -- intros a. destruct (de_entries f E k t1 false s4) as [[es' s5]| | | |] eqn:He; cbn [tbind]; try discriminate.
+             exfalso. exact (Hrest _ eq_refl).
+        * intros a. destruct (de_typed f E t1 s3) as [[d' s4]| | | |] eqn:Hv; cbn [tbind]; try discriminate.
+          specialize (Hel _ _ eq_refl).
+          destruct (de_entries f E k t1 false s4) as [[es' s5]| | | |] eqn:He; cbn [tbind]; try discriminate.
+          exfalso. exact (de_entries_stuck cf f k t1 s4 Hel _ He).
+      + intros a. destruct (de_key f E k s1) as [[kd' s2]| | | |] eqn:Hkt2; cbn [tbind]; try discriminate.
+        exfalso. exact (Hkey _ eq_refl).
+  Qed.
+
+  Lemma agree_map2 k t1 : agree_kty k = true -> agree_at2 t1 -> agree_at2 (TMap k t1).
+  Proof.
+    intros Hk IH c v fuel fv s w rst Hwf Hden Hsh Hcl Hwv Hw Hfol Hdb Hr Hfuel Hfv.
+    destruct fuel as [|f]; [cbn [ty_depth] in Hfuel; lia|]. destruct fv as [|fv]; [cbn [ty_depth] in Hfv; lia|].
+    destruct (render_first c Hwf) as (b & r & Hren & Hbws & _).
+    pose proof Hr as Hr0. rewrite Hren in Hr. revert Hr. lnorm. intros Hr.
+    destruct (first_not c b r Hwf Hren) as (_ & _ & Hn123 & _).
+    destruct c as [| | |n|ps|w0 es|w0 ms]; destruct v as [|[|]| | | |m]; cbn [shape2 shape] in Hsh; try discriminate Hsh; try contradiction;
+      cbn [de_value_owned]; unfold verr.
+    all: try (apply okrel2_not_ok; apply tmap_not_ok'; apply (reject_map cf _ s w b (r ++ rst) Hw Hbws Hr); apply Hn123; intros; discriminate).
+    pose proof (obj_members w0 ms m Hden Hsh Hwv) as Hdm.
+    cbn [wfb] in Hwf. apply andb_prop in Hwf as [Hw0 Hwfm].
+    rewrite render_obj in Hr0. revert Hr0. lnorm. intros Hr0.
+    destruct (open_frame cf 123 _ (cdepth_members ms) s w Hw eq_refl Hr0 Hdb) as (s1 & s2 & Hpw & Hen & Hrb & Hd1 & Hd2 & Hdb2).
+    cbn [de_typed]. unfold deserialize_map. rewrite Hpw. cbn [lift tbind]. change (123 =? 123) with true. cbv iota.
+    cbn [ty_depth vfuel] in Hfuel, Hfv. cbn [claimb] in Hcl. cbn [wf_value] in Hwv. apply andb_prop in Hwv as [Hwe Hkeys].
+    assert (Hf1 : (Nat.max (kty_depth k) (ty_depth t1) + mfuel ms <= f)%nat) by (clear - Hfuel; lia).
+    assert (Hf2 : (ty_depth t1 < fv)%nat) by (clear - Hfv; lia).
+    assert (Hloop := entries_agree2 k t1 Hk IH ms m f fv true (discard s2) w0 rst Hwfm Hdm Hsh Hcl Hwe Hw0 Hdb2 Hrb Hf1 Hf2).
+    unfold map_any_owned.
+    destruct (map_all (de_value_key cf false k) (de_value_owned fv cf fx t1) m) as [[es rem]| | |]; cbn [vbind vmap]; try contradiction.
+    - destruct Hloop as (-> & es' & s3 & wl & He & Hu & Hwl & Hr3 & Hd3). cbn [vbind vmap okrel2].
+      destruct (close_frame cf end_map end_map_st 125 (fun s' => de_entries f E k t1 true s') (cdepth_members ms) s s1 s2 es' s3 wl rst
+                  (closes_map cf) eq_refl Hdb Hen Hd1 Hd2 He Hwl Hr3 Hd3) as (s5 & Hfr & Hr5 & Hd5).
+      rewrite Hfr. cbn [fix_position tmap tbind]. exists (DMap es'), s5. split; [reflexivity|].
+      split; [cbn [unborrow]; f_equal; exact Hu|]. auto.
+    - apply okrel2_not_ok. apply tmap_not_ok'. intros a. apply fix_position_not_ok. apply (frame_fail cf _ _ _ s1 s2 Hen). exact Hloop.
+  Qed.
+
+  (* ---- every type program of this stage ------------------------------------------------------------------------------------------ *)
+  Fixpoint agree_ty_map (t : ty) : bool :=
+    match t with
+    | TBool | TUnit | TUnitStruct | TStr | TChar | TF64 | TIgnored | TValue => true
+    | TInt it => negb (is_128 it)
+    | TOption t1 | TNewtype t1 | TSeq t1 => agree_ty_map t1
+    | TTuple ts | TTupleStruct ts => forallb agree_ty_map ts
+    | TMap k t1 => agree_kty k && agree_ty_map t1
+    | _ => false
+    end.
+
+  (* the leaf types of Proofs/ValueDeAgree.v *)
+  Definition leaf_ty (t : ty) : bool :=
+    match t with
+    | TBool | TUnit | TUnitStruct | TStr | TChar | TF64 | TIgnored | TValue => true
+    | TInt it => negb (is_128 it)
+    | _ => false
+    end.
+
+  Lemma agree_leaf2 t : leaf_ty t = true -> agree_at2 t.
+  Proof.
+    intros Ht. apply agree_at_2. apply (agree_all cf fx Hap (ty_depth t) t (le_n _)).
+    destruct t; try discriminate Ht; try reflexivity. exact Ht.
+  Qed.
+
+  Theorem agree_all_map : forall n t, (ty_depth t <= n)%nat -> agree_ty_map t = true -> agree_at2 t.
+  Proof.
+    induction n as [|n IH]; intros t Hn Ht; [pose proof (ty_depth_pos' t); lia|].
+    destruct t; cbn [agree_ty_map] in Ht; try discriminate Ht; try (apply agree_leaf2; exact Ht).
+    - apply agree_option2, IH; [cbn [ty_depth] in Hn; lia|exact Ht].
+    - apply agree_newtype2, IH; [cbn [ty_depth] in Hn; lia|exact Ht].
+    - apply agree_seq2, IH; [cbn [ty_depth] in Hn; lia|exact Ht].
+    - apply (agree_tuple_gen2 _ ts (or_introl eq_refl)). intros t' Hin. apply IH.
+      + pose proof (lmax_depth_in' ts t' Hin). rewrite (proj1 (ty_depth_tuple ts)) in Hn. lia.
+      + rewrite forallb_forall in Ht. apply Ht, Hin.
+    - apply (agree_tuple_gen2 _ ts (or_intror eq_refl)). intros t' Hin. apply IH.
+      + pose proof (lmax_depth_in' ts t' Hin). rewrite (proj2 (ty_depth_tuple ts)) in Hn. lia.
+      + rewrite forallb_forall in Ht. apply Ht, Hin.
+    - apply andb_prop in Ht as [Hk Ht]. apply agree_map2; [exact Hk|]. apply IH; [cbn [ty_depth] in Hn; lia|exact Ht].
   Qed.
 End Agree2.
+
+(* ---- the claim predicate is vacuous without enums ---------------------------------------------------------------------------------------- *)
+Fixpoint no_enum (t : ty) : bool :=
+  match t with
+  | TOption t1 | TNewtype t1 | TSeq t1 => no_enum t1
+  | TTuple ts | TTupleStruct ts => forallb no_enum ts
+  | TMap _ t1 => no_enum t1
+  | TStruct fs => forallb (fun p => no_enum (snd p)) fs
+  | TEnum _ => false
+  | _ => true
+  end.
+
+Lemma index_of_In {A} name (l : list (bytes * A)) i a : index_of name l = Some (i, a) -> exists n, In (n, a) l.
+Proof.
+  revert i. induction l as [|[n x] l IH]; intros i H; cbn [index_of] in H; [discriminate|].
+  destruct (beq_bytes name n).
+  - injection H as _ <-. exists n. left. reflexivity.
+  - destruct (index_of name l) as [[j y]|]; [|discriminate]. injection H as _ <-. destruct (IH j eq_refl) as [n' Hn]. exists n'. right. exact Hn.
+Qed.
+
+Lemma claim_list_all (f : ty -> value -> bool) ts : (forall t x, In t ts -> f t x = true) -> forall l, claim_list f ts l = true.
+Proof.
+  induction ts as [|t ts IH]; intros H l; [reflexivity|]. destruct l as [|x l]; [reflexivity|]. cbn [claim_list].
+  rewrite (H t x (or_introl eq_refl)), (IH (fun t' x' Hin => H t' x' (or_intror Hin))). reflexivity.
+Qed.
+
+Lemma claimb_noenum : forall f t v, no_enum t = true -> claimb f t v = true.
+Proof.
+  induction f as [|f IH]; [reflexivity|]. intros t v Ht.
+  destruct t; cbn [no_enum] in Ht; try discriminate Ht; cbn [claimb]; try reflexivity.
+  - destruct v; try reflexivity; apply IH, Ht.
+  - apply IH, Ht.
+  - destruct v; try reflexivity. apply forallb_forall. intros x _. apply IH, Ht.
+  - destruct v; try reflexivity. apply claim_list_all. intros t' x Hin. apply IH. rewrite forallb_forall in Ht. apply Ht, Hin.
+  - destruct v; try reflexivity. apply claim_list_all. intros t' x Hin. apply IH. rewrite forallb_forall in Ht. apply Ht, Hin.
+  - destruct v; try reflexivity. apply forallb_forall. intros x _. apply IH, Ht.
+  - destruct v; try reflexivity.
+    + apply claim_list_all. intros t' x Hin. apply IH. apply in_map_iff in Hin as (p & <- & Hp). rewrite forallb_forall in Ht. apply (Ht p Hp).
+    + unfold claim_fields. apply forallb_forall. intros kv _. destruct (index_of (fst kv) fields) as [[i t']|] eqn:Hi; [|reflexivity].
+      apply IH. destruct (index_of_In _ _ _ _ Hi) as [n Hn]. rewrite forallb_forall in Ht. apply (Ht (n, t') Hn).
+Qed.
+
+Lemma agree_ty_map_noenum : forall n t, (ty_depth t <= n)%nat -> agree_ty_map t = true -> no_enum t = true.
+Proof.
+  induction n as [|n IH]; intros t Hn Ht; [pose proof (ty_depth_pos' t); lia|].
+  destruct t; cbn [agree_ty_map] in Ht; try discriminate Ht; cbn [no_enum]; try reflexivity.
+  - apply IH; [cbn [ty_depth] in Hn; lia|exact Ht].
+  - apply IH; [cbn [ty_depth] in Hn; lia|exact Ht].
+  - apply IH; [cbn [ty_depth] in Hn; lia|exact Ht].
+  - apply forallb_forall. intros t' Hin. apply IH.
+    + pose proof (lmax_depth_in' ts t' Hin). rewrite (proj1 (ty_depth_tuple ts)) in Hn. lia.
+    + rewrite forallb_forall in Ht. apply Ht, Hin.
+  - apply forallb_forall. intros t' Hin. apply IH.
+    + pose proof (lmax_depth_in' ts t' Hin). rewrite (proj2 (ty_depth_tuple ts)) in Hn. lia.
+    + rewrite forallb_forall in Ht. apply Ht, Hin.
+  - apply andb_prop in Ht as [_ Ht]. apply IH; [cbn [ty_depth] in Hn; lia|exact Ht].
+Qed.
+
+(* ---- the printed tree mirrors the Value ([shape2]) ------------------------------------------------------------------------------------------ *)
+From SJ Require Import Model.Sval Model.Ser Model.ValueSer Spec.Layout Proofs.SerBase Proofs.SerMain Proofs.SerFinal Proofs.ValueDeText.
+
+Section Text.
+  Variable cf : cfg.
+  Variable fx : fenv.
+  Variable fmt32 fmt64 : N -> bytes.
+  Local Notation cst_of := (cst_of cf fmt32 fmt64).
+
+  (* the literal is the one the serializer prints for the Number *)
+  Definition NRser (n : numlit) (num : num) : Prop := cst_of (sval_of_num num) = Some (CNum n).
+
+  Lemma shape2_elems_of cs l : Forall2 (fun c x => shape2 NRser c x) cs l -> shape2_elems NRser (elems_of cs) l.
+  Proof. induction 1 as [|c x cs l Hc _ IH]; [exact I|]. cbn [elems_of shape2_elems]. auto. Qed.
+
+  Lemma seq_members (g : bytes * value -> option (list strpiece * cst)) l :
+    (forall kv, g kv = match cst_of (sval_of_value (snd kv)) with Some y => Some (pieces_of (fst kv), y) | None => None end) ->
+    Forall (fun kv : bytes * value => forall c, wf_value cf (snd kv) = true -> cst_of (sval_of_value (snd kv)) = Some c -> shape2 NRser c (snd kv)) l ->
+    forallb (fun kv : bytes * value => utf8_valid (fst kv) && wf_value cf (snd kv)) l = true ->
+    forall ms, sequence (map g l) = Some ms -> shape2_members NRser (members_of ms) l.
+  Proof.
+    intros Hg. induction l as [|kv l IHl]; intros H W ms Es; cbn [map sequence] in Es.
+    - injection Es as <-. exact I.
+    - inversion H as [|? ? Hx Hl]; subst. cbn [forallb] in W. apply andb_true_iff in W as [Wx Wl]. apply andb_true_iff in Wx as [_ Wx].
+      rewrite Hg in Es. destruct (cst_of (sval_of_value (snd kv))) as [cx|] eqn:Ex; [|discriminate Es].
+      destruct (sequence (map g l)) as [ms'|] eqn:Es'; [|discriminate Es].
+      cbn [option_map] in Es. injection Es as <-. cbn [members_of shape2_members fst snd].
+      split; [reflexivity|]. split; [apply (Hx cx Wx eq_refl)|]. apply (IHl Hl Wl ms' eq_refl).
+  Qed.
+
+  Lemma value_shape2 : forall v c, wf_value cf v = true -> cst_of (sval_of_value v) = Some c -> shape2 NRser c v.
+  Proof.
+    induction v using value_ind'; intros c W Hc; cbn [sval_of_value SerRender.cst_of] in Hc.
+    - injection Hc as <-. reflexivity.
+    - injection Hc as <-. destruct b; reflexivity.
+    - assert (Hn : exists n', c = CNum n').
+      { destruct n as [u|i|f|s]; cbn [sval_of_num SerRender.cst_of] in Hc; cbn [wf_value wf_num] in W.
+        + injection Hc as <-. unfold cint. eauto.
+        + injection Hc as <-. unfold cint. eauto.
+        + apply andb_true_iff in W as [_ Wf]. destruct (finite_bits_shape f Wf) as [_ B2]. rewrite B2 in Hc. injection Hc as <-.
+          unfold cnum_text. eauto.
+        + apply andb_true_iff in W as [Wa _]. rewrite Wa in Hc. injection Hc as <-. unfold cnum_text. eauto. }
+      destruct Hn as [n' ->]. cbn [shape2]. exact Hc.
+    - injection Hc as <-. reflexivity.
+    - rewrite map_map in Hc. destruct (sequence (map (fun x => cst_of (sval_of_value x)) l)) as [cs|] eqn:Es; [|discriminate Hc].
+      cbn [option_map] in Hc. injection Hc as <-. cbn [shape2]. apply shape2_elems_of.
+      apply (sequence_Forall2 (fun x => cst_of (sval_of_value x)) (fun c x => shape2 NRser c x) l cs); [|exact Es].
+      cbn [wf_value] in W. rewrite forallb_forall in W. rewrite Forall_forall in *. intros x Hx b Hb. apply (H x Hx b (W x Hx) Hb).
+    - rewrite map_map in Hc. cbn [fst snd] in Hc.
+      destruct (sequence (map (fun kv : bytes * value => pair_opt (key_pieces fmt32 fmt64 (SStr (fst kv))) (cst_of (sval_of_value (snd kv)))) l))
+        as [ms|] eqn:Es; [|discriminate Hc].
+      cbn [option_map] in Hc. injection Hc as <-. cbn [shape2].
+      cbn [wf_value] in W. apply andb_true_iff in W as [W _].
+      exact (seq_members _ l (fun kv => eq_refl) H W ms Es).
+  Qed.
+
+  (* ---- from_value against from_str on the printed text, for a type program whose agreement lemma is available -------------------- *)
+  Theorem agree_text_gen t v : arbitrary_precision cf = false -> ryu_json fmt32 fmt64 -> ryu_reads_back_value cf fmt64 ->
+    agree_at2 NRser cf fx t -> wf_value cf v = true -> claimb (value_de_fuel t) t v = true ->
+    exists bufs c, serialize cf fmt32 fmt64 Compact (sval_of_value v) = Ok bufs /\ concat bufs = render c /\
+      ((limit_disabled cf = false -> (cdepth c <= 127)%nat) ->
+       agree (from_value_owned cf fx t v) (from_input_typed (mkEnv RSlice TEof cf) t (concat bufs))).
+  Proof.
+    intros Hap [H1 H2] H4 Hat W Hcl.
+    assert (HL : literal_kept cf) by (intros Ha; rewrite Hap in Ha; discriminate Ha).
+    destruct (value_image cf fmt32 fmt64 H4 HL v W) as [Ws Hi]. destruct (value_cst cf fmt32 fmt64 v) as [c Hc].
+    destruct (serialize_ok cf fmt32 fmt64 Compact _ c Ws Hc) as [bufs [Es C]]. rewrite print_compact in C.
+    destruct (C03_wf_nows cf fmt32 fmt64 H1 H2 _ c Ws Hc) as [G1 _].
+    assert (Dn : denote cf c = Some v) by (rewrite (C03_denotes_image cf fmt32 fmt64 H1 H2 _ c Ws Hc); exact Hi).
+    assert (Sh := value_shape2 v c W Hc).
+    exists bufs, c. split; [exact Es|]. split; [exact C|]. intros Hdepth. rewrite C.
+    unfold from_input_typed, from_value_owned.
+    assert (Hdb : dbudget cf (cdepth c) (depth (init_st (render c)))).
+    { intros Hl. specialize (Hdepth Hl). cbn [init_st depth]. rewrite DEPTH0_eq. lia. }
+    assert (Hfuel : (ty_depth t + vfuel c <= typed_fuel t (render c))%nat).
+    { pose proof (vfuel_bound c). unfold typed_fuel. lia. }
+    assert (Hfv : (1 + ty_depth t <= value_de_fuel t)%nat) by (unfold value_de_fuel; lia).
+    assert (Hr0 : rest (init_st (render c)) = [] ++ render c ++ []) by (cbn [init_st rest app]; rewrite app_nil_r; reflexivity).
+    pose proof (Hat c v (typed_fuel t (render c)) (value_de_fuel t) (init_st (render c)) [] [] G1 Dn Sh Hcl W eq_refl I Hdb Hr0 Hfuel Hfv) as H.
+    unfold agree. destruct (de_value_owned (value_de_fuel t) cf fx t v) as [d| | |]; cbn [okrel2] in H; try contradiction.
+    - destruct H as (d' & s' & Hde & Hu & Hr & _). rewrite Hde. cbn [DeTyped.tbind].
+      destruct (de_end_nil cf s' Hr) as [s1 He]. rewrite He. cbn [DeTyped.lift DeTyped.tbind]. exists d'. auto.
+    - intros b. destruct (de_typed (typed_fuel t (render c)) (mkEnv RSlice TEof cf) t (init_st (render c))) as [[d' s']| | | |] eqn:Hde;
+        cbn [DeTyped.tbind]; try discriminate.
+      specialize (H _ _ eq_refl).
+      destruct (de_end (mkEnv RSlice TEof cf) s') as [s1| | |] eqn:He; cbn [DeTyped.lift DeTyped.tbind]; try discriminate.
+      exfalso. exact (de_end_stuck cf s' H _ He).
+  Qed.
+End Text.
+
+(* ---- C16 for maps ------------------------------------------------------------------------------------------------------------------------------ *)
+(* from_value::<T>(v) against from_str::<T>(to_string(&v)) for every T of [agree_ty_map]: the types of C16_agree_partial and
+   maps (BTreeMap / HashMap / any map visitor) with String, char, bool, integer (8..128 bit), f64, Option / newtype-wrapped and
+   unit-variant-enum keys. *)
+Theorem C16_agree_map : forall cf fx fmt32 fmt64 t v,
+  arbitrary_precision cf = false -> ryu_json fmt32 fmt64 -> ryu_reads_back_value cf fmt64 ->
+  agree_ty_map t = true -> wf_value cf v = true ->
+  exists bufs c, serialize cf fmt32 fmt64 Compact (sval_of_value v) = Ok bufs /\ concat bufs = render c /\
+    ((limit_disabled cf = false -> (cdepth c <= 127)%nat) ->
+     agree (from_value_owned cf fx t v) (from_input_typed (mkEnv RSlice TEof cf) t (concat bufs))).
+Proof.
+  intros cf fx fmt32 fmt64 t v Hap HR H4 Ht W.
+  apply (agree_text_gen cf fx fmt32 fmt64 t v Hap HR H4); [|exact W|].
+  - exact (agree_all_map (NRser cf fmt32 fmt64) cf fx Hap (ty_depth t) t (le_n _) Ht).
+  - apply claimb_noenum. exact (agree_ty_map_noenum (ty_depth t) t (le_n _) Ht).
+Qed.
+
+Print Assumptions C16_agree_map.
